@@ -443,6 +443,22 @@ func (n *lazyNode) equal(o *lazyNode) bool {
 	return true
 }
 
+// equalCopy compares a copy of n with o. equal parses nodes in place and
+// without the options that decide how the document is spelled on output, so
+// comparing the live node would change later output (escaping of <, >, &).
+func (n *lazyNode) equalCopy(o *lazyNode, options *ApplyOptions) (bool, error) {
+	if n.isNull() {
+		return o.isNull(), nil
+	}
+
+	cmp, _, err := deepCopy(n, options)
+	if err != nil {
+		return false, err
+	}
+
+	return cmp.equal(o), nil
+}
+
 // Kind reads the "op" field of the Operation.
 func (o Operation) Kind() string {
 	if obj, ok := o["op"]; ok && obj != nil {
@@ -1105,7 +1121,12 @@ func (p Patch) test(doc *container, op Operation, options *ApplyOptions) error {
 			self.which = eAry
 		}
 
-		if self.equal(op.value()) {
+		eq, err := self.equalCopy(op.value(), options)
+		if err != nil {
+			return fmt.Errorf("error in test for path: '%s': %w", path, err)
+		}
+
+		if eq {
 			return nil
 		}
 
@@ -1134,7 +1155,12 @@ func (p Patch) test(doc *container, op Operation, options *ApplyOptions) error {
 		return fmt.Errorf("testing value %s failed: %w", path, ErrTestFailed)
 	}
 
-	if val.equal(op.value()) {
+	eq, err := val.equalCopy(op.value(), options)
+	if err != nil {
+		return fmt.Errorf("error in test for path: '%s': %w", path, err)
+	}
+
+	if eq {
 		return nil
 	}
 
